@@ -29,13 +29,13 @@ ASSUMPTIONS = ["element names are unique (members given by reference column 'nam
 REACH_PROBES = ["group_with_reference_column", "attach_with_mismatching_reference_column", "group_emptied",
                 "element_drop_with_members", "reindex_with_members", "res_sum_checked", "setter_checked",
                 "groups_created_from_shared_argument_lists", "attach_to_several_groups",
-                "membership_queries_checked", "reindex_with_overlapping_lookup"]
+                "membership_queries_checked", "reindex_with_overlapping_lookup", "replace_with_members"]
 
 TEMPLATES = [("feeder", 4), ("case9", 3), ("feeder_t3w", 2), ("four_bus", 1)]
 MEMBER_ET = ["load", "sgen", "line", "bus", "gen", "trafo", "switch"]
 OPS_W = [("create_group", 4), ("attach", 6), ("attach_many", 2), ("detach", 5), ("detach_all", 2), ("drop_group", 1),
          ("drop_group_and_elements", 1), ("set_refcol", 3), ("drop_el", 4), ("reindex", 4), ("reindex_group", 1),
-         ("in_service", 2), ("set_value", 2), ("res_sum", 2), ("create", 2), ("query", 4)]
+         ("in_service", 2), ("set_value", 2), ("res_sum", 2), ("create", 2), ("query", 4), ("replace", 3)]
 
 
 def warm():
@@ -59,10 +59,15 @@ def generate(rng, idx, tier):
             op["n"] = [rng.randint(1, 3) for _ in range(n_t)]
             op["refcol"] = rng.choice([None, None, "name"])
             op["from_dict"] = rng.random() < 0.3
+            op["dup"] = rng.random() < 0.1            # a member listed twice in the argument
             if f == "create_group":
                 op["twice"] = rng.random() < 0.2     # a second group from the very same argument lists
             if f == "attach_many":
                 op["g2"] = rng.randrange(100)
+        elif f == "replace":
+            op["what"] = rng.choice(["load->sgen", "sgen->load", "gen->sgen", "sgen->gen"])
+            op["n"] = rng.choice([1, 2])
+            op["explicit"] = rng.random() < 0.4         # explicit, unordered new indices
         elif f == "query":
             op["et"] = rng.choice(MEMBER_ET)
             op["n"] = rng.choice([1, 1, 2, 3])
@@ -236,10 +241,11 @@ def _resync(net, model):
     model.clean()
 
 
-def _members_arg(net, et, idx, refcol):
-    if refcol is None:
-        return list(idx)
-    return [net[et].at[x, refcol] for x in idx]
+def _members_arg(net, et, idx, refcol, dup=False):
+    out = list(idx) if refcol is None else [net[et].at[x, refcol] for x in idx]
+    if dup and out:
+        out = out + out[:1]
+    return out
 
 
 def apply_op(net, model, op, ctx, fam, bad):
@@ -270,7 +276,7 @@ def apply_op(net, model, op, ctx, fam, bad):
         if not types:
             return "noop"
         rc = op["refcol"]
-        args = [_members_arg(net, et, m, rc) for et, m in zip(types, idxs)]
+        args = [_members_arg(net, et, m, rc, op.get("dup")) for et, m in zip(types, idxs)]
         if op["from_dict"]:
             new = pp.create_group_from_dict(net, dict(zip(types, args)), name=f"g{op['a']}", reference_column=rc)
         else:
@@ -329,7 +335,7 @@ def apply_op(net, model, op, ctx, fam, bad):
                 ex = None if pd.isnull(ex) else ex
                 if ex != rc:
                     ctx.probe("attach_with_mismatching_reference_column")
-        args = [_members_arg(net, et, m, rc) for et, m in zip(types, idxs)]
+        args = [_members_arg(net, et, m, rc, op.get("dup")) for et, m in zip(types, idxs)]
         G.attach_to_group(net, gi, types, args, reference_columns=rc)
         fam[0] = "attach_to_group" + (":refcol" if rc else "")
         for et, m in zip(types, idxs):
@@ -444,6 +450,40 @@ def apply_op(net, model, op, ctx, fam, bad):
         fam[0] = f"set_value_to_group:{col}"
         _check_setter(net, snap, model.g[gi], col, val, bad, only_if_col=True)
         ctx.probe("setter_checked")
+        return "ok"
+    if k == "replace":
+        old_t, new_t = op["what"].split("->")
+        if old_t not in net or not len(net[old_t]):
+            return "noop"
+        sel = _pick_members(net, old_t, op["a"], op["n"])
+        if not sel:
+            return "noop"
+        if old_t == "gen" and "slack" in net.gen.columns and net.gen.loc[sel, "slack"].any():
+            return "noop"
+        new_idx = None
+        if op["explicit"]:
+            top = (max(net[new_t].index) if len(net[new_t]) else 0) + 5
+            new_idx = [top + 2 * (len(sel) - j) for j in range(len(sel))]      # descending
+        if any(x in g.get(old_t, set()) for g in model.g.values() for x in sel):
+            ctx.probe("replace_with_members")
+        if op["what"] in ("load->sgen", "sgen->load"):
+            got = tb.replace_pq_elmtype(net, old_t, new_t, old_indices=sel, new_indices=new_idx)
+        elif op["what"] == "gen->sgen":
+            got = tb.replace_gen_by_sgen(net, gens=sel, sgen_indices=new_idx)
+        else:
+            got = tb.replace_sgen_by_gen(net, sgens=sel, gen_indices=new_idx)
+        got = [int(x) for x in list(got)]
+        fam[0] = f"replace:{op['what']}"
+        _names(net)
+        if len(got) != len(sel):
+            bad("replace returned other number of elements", f"{len(got)} new for {len(sel)} old elements")
+            return "ok"
+        mapping = dict(zip(sel, got))
+        for g in model.g.values():
+            moved = {x for x in g.get(old_t, set()) if x in mapping}
+            if moved:
+                g[old_t] -= moved
+                g.setdefault(new_t, set()).update(mapping[x] for x in moved)
         return "ok"
     if k == "query":
         # the membership reporting functions other than group_element_index
